@@ -19,18 +19,19 @@ from ..ref import activation as R
 
 ID = "C08"
 LEVEL = "model_checking"
-THRESHOLDS = [0.0, 0.25, 0.3, 0.5, 1.0]
+TINY = 2.0**-12  # positive but below the library comparison tolerance (atol = 1e-3)
+THRESHOLDS = [0.0, TINY, 0.25, 0.3, 0.5, 1.0]
 
 
 def sizes(tier: str):
     # (n, degree alphabet, max status deviations)
     if tier == "quick":
-        return [(1, 4, 1), (2, 4, 2), (3, 4, 1), (4, 4, 1)]
-    return [(1, 4, 1), (2, 4, 2), (3, 4, 2), (4, 4, 2), (5, 4, 2), (6, 4, 1), (7, 3, 1), (8, 3, 0)]
+        return [(1, 5, 1), (2, 5, 2), (3, 5, 1), (4, 4, 1)]
+    return [(1, 5, 1), (2, 5, 2), (3, 5, 2), (4, 5, 2), (5, 5, 1), (6, 4, 1), (7, 3, 1), (8, 3, 0)]
 
 
 def alphabet(k: int):
-    return [0.0, 0.25, 0.5, 1.0] if k == 4 else [0.0, 0.5, 1.0]
+    return {5: [0.0, TINY, 0.25, 0.5, 1.0], 4: [0.0, 0.25, 0.5, 1.0], 3: [0.0, 0.5, 1.0]}[k]
 
 
 def methods(n: int):
@@ -184,8 +185,9 @@ def summarize(tier: str, seed: int, merged: dict) -> dict:
         "rule": (
             "blocks of n rules (n, |degree alphabet|, max status deviations) = "
             f"{sizes(tier)}; all degree vectors x all status vectors within the deviation bound "
-            "(disabled/unloaded) x General, Proportional, First/Last(n=0..rules+1, t in {0,.25,.3,.5,1}), "
-            "Highest/Lowest(n=-1..rules+1), Threshold(6 comparators x 5 thresholds); plus batch acceptance/rejection. "
+            "(disabled/unloaded; degree alphabets {0, 2^-12, .25, .5, 1} / {0, .25, .5, 1} / {0, .5, 1}) x General, "
+            "Proportional, First/Last(n=0..rules+1, t in {0, 2^-12, .25, .3, .5, 1}), "
+            "Highest/Lowest(n=-1..rules+1), Threshold(6 comparators x 6 thresholds); plus batch acceptance/rejection. "
             "states = (block, degrees, status, method) configurations, transitions = RuleBlock.activate calls, traces = "
             "reference-model runs compared; non-trivial = at least two loaded rules with positive degree"
         ),
